@@ -273,6 +273,21 @@ def root_let(lid, lets, depth=0):
     return lid
 
 
+def binding_source(fn, lid):
+    """The expression a pattern binding destructures: the scrutinee of the `match`, the init of the `if let` / `let`
+    whose pattern binds local id lid; None for parameters and closure parameters."""
+    for n in walk(fn["body"]):
+        k = n.get("k")
+        if k == "Match":
+            for arm in n["arms"]:
+                if any(b[0] == lid for b in pat_bindings(arm["pat"])):
+                    return n["scrut"]
+        elif k in ("LetExpr", "Let") and n.get("init") is not None:
+            if any(b[0] == lid for b in pat_bindings(n["pat"])):
+                return n["init"]
+    return None
+
+
 def binding_modes(fn):
     """binding id -> True if declared `mut`."""
     out = {}
